@@ -742,6 +742,10 @@ impl<'w, 'r, 'gc> Cb<'w, 'r, 'gc> {
                     _ => return self.skip(),
                 };
                 self.cover_write("stash", Some(inner), Some(*obj));
+                if self.w.sh.groups.values().any(|g| g.inner == inner && g.count == 0) {
+                    // a slot of this set has been freed before: this stash reuses it
+                    self.w.stats.flag("C14.slot-reuse");
+                }
                 let group = self.w.sh.add_group(inner, *obj);
                 self.w.sh.handles.insert(*handle, group);
                 self.w.sh.next_hid = self.w.sh.next_hid.max(handle + 1);
